@@ -43,6 +43,30 @@ def main():
         print("no check for %s" % pid)
         return 2
     rep = core.Reporter(pid, tier, seed, getattr(mod, "LEVEL", "exploration"))
+    if getattr(mod, "ISOLATE", False) and not a.replay and not os.environ.get("VERIF_NO_ISOLATE"):
+        # The property speaks about process death: run the body in a child so that an abort / segfault of the
+        # extension is observed (and reported with the case that was executing) instead of killing the check.
+        journal = os.path.join(core.REPLAY_RUN_DIR, pid, "in-flight.json")
+        os.makedirs(os.path.dirname(journal), exist_ok=True)
+        if os.path.exists(journal):
+            os.remove(journal)
+        child_env = dict(os.environ, VERIF_NO_ISOLATE="1", VERIF_JOURNAL=journal)
+        import subprocess
+        p = subprocess.run([sys.executable, os.path.abspath(__file__), pid, "--tier", tier], env=child_env)
+        if p.returncode in (0, 1, 2):
+            return p.returncode
+        dst = os.path.join(core.REPLAY_RUN_DIR, pid, "process-death-%d.json" % abs(p.returncode))
+        if os.path.exists(journal):
+            os.replace(journal, dst)
+        else:
+            with open(dst, "w") as fh:
+                json.dump({"property": pid, "signature": "process-death", "case": None}, fh)
+        print("VIOLATION property=%s replay=%s" % (pid, dst))
+        print("  signature: process-death:%d\n  the check body died with status %d while executing the case saved in the replay file" % (p.returncode, p.returncode))
+        rep.violations.append({"signature": "process-death:%d" % p.returncode, "message": "child died", "replay": dst})
+        rep.evaluations = 1
+        rep.finish()
+        return 1
     try:
         if a.replay:
             with open(a.replay) as fh:
